@@ -85,6 +85,10 @@ def _lexer(run, P, f: Func):
                    "starts the token (\"f('a b')\" is cut at the blank, and a line "
                    "wrapped there continues inside the string literal); a shlex object "
                    "also treats '#' as a comment start unless commenters is cleared")
+        for lang in ("Python", "Fortran"):
+            run.ob("C20.lexer", f, dflt, False,
+                   construct=f"{lang} wrap_line lexer: shlex based, no per-language escape handling",
+                   why="see above")
         return
     if target is None:
         raise AnalysisError(f"wrap_line_base: default lexer {desc} not resolved")
